@@ -1331,9 +1331,20 @@ func ruleKEY12(c *Ctx) []Ob {
 				}
 				return aval{}, false
 			}
-			te.callHook = func(call *ssa.Call) ([]aval, bool) {
+			// the two operands carry marks, so that they are recognised inside helpers as well
+			const markA, markB = 91, 92
+			f64 := types.Typ[types.Float64]
+			te.callHookEnv = func(call *ssa.Call, val func(ssa.Value) aval) ([]aval, bool) {
 				if calleeFullName(call) != "math.IsNaN" {
 					return nil, false
+				}
+				if av := val(call.Call.Args[0]); av.K == aConcrete {
+					switch av.Idx {
+					case markA:
+						return []aval{boolConst(cs.n1)}, true
+					case markB:
+						return []aval{boolConst(cs.n2)}, true
+					}
 				}
 				for _, og := range origins(call.Call.Args[0]) {
 					switch og {
@@ -1345,7 +1356,7 @@ func ruleKEY12(c *Ctx) []Ob {
 				}
 				return nil, false
 			}
-			outs := te.Eval(cmpF, make([]aval, 2), 0)
+			outs := te.Eval(cmpF, []aval{{K: aConcrete, Tag: f64, Idx: markA}, {K: aConcrete, Tag: f64, Idx: markB}}, 0)
 			key := c.fname(cmpF) + "/" + cs.name
 			if len(outs) != 1 || outs[0].Panic {
 				o.add(UNDECIDED, key, pos, "the outcome is not decided by the ordering tests being false and math.IsNaN (%d outcomes)", len(outs))
